@@ -198,6 +198,81 @@ Theorem C19_nested_value_follows_config :
 Proof. exact run_node_ok. Qed.
 Print Assumptions C19_nested_value_follows_config.
 
+(* ---- several config files one after the other ------------------------------------------------------------
+   parse_args(["--cfg", f1, "--cfg", f2, ...]) and get_defaults() with several default_config_files, for sequences of
+   ANY length, over any file set, link table, os.chdir oracle and repair combination. Induction over the sequence; the
+   step uses that the previous file left the process state as it found it. Each file inside tree_guard (evaluated at
+   the ONE working directory of the call): every file is found from the working directory of the call, every relative
+   path resolves against the directory of the file that mentions it, later files override earlier ones key by key
+   (merge_items), the first failure fails the whole, and the process state is restored.
+   For default config files the model is the code's: glob drops names that do not exist, Path(v, "fr") is built for
+   all files before any is loaded, a blank file is skipped, an undecodable one fails before any directory is entered. *)
+Theorem C19_cfg_sequence_follows_config :
+  forall (fxs : fixes) (files : list str) (links : list (str * str)) (dir_ok : str -> bool)
+         (tops : list (str * list node)) (s : st) (acc : list item),
+  is_abs (cwd s) = true -> cfgs_guard files links (fx_lf fxs) (fx_rp fxs) dir_ok (cwd s) tops = true ->
+  run_cfgs fxs files links dir_ok s tops acc = (s, spec_cfgs files links (cwd s) tops acc).
+Proof. exact run_cfgs_ok. Qed.
+Print Assumptions C19_cfg_sequence_follows_config.
+
+Theorem C19_default_files_follow_config :
+  forall (fxs : fixes) (files : list str) (links : list (str * str)) (dir_ok : str -> bool)
+         (tops : list (str * dcontent)) (s : st),
+  is_abs (cwd s) = true -> defaults_guard files links (fx_lf fxs) (fx_rp fxs) dir_ok (cwd s) tops = true ->
+  run_defaults fxs files links dir_ok s tops = (s, spec_defaults files links (cwd s) tops).
+Proof. exact run_defaults_ok. Qed.
+Print Assumptions C19_default_files_follow_config.
+
+(* restoration alone needs only that the directories the code enters can be entered *)
+Theorem C19_cfg_sequence_restores :
+  forall (fxs : fixes) (files : list str) (links : list (str * str)) (dir_ok : str -> bool)
+         (tops : list (str * list node)) (s : st) (acc : list item),
+  is_abs (cwd s) = true -> cfgs_enter_guard files links (fx_lf fxs) (fx_rp fxs) dir_ok (cwd s) tops = true ->
+  fst (run_cfgs fxs files links dir_ok s tops acc) = s.
+Proof. exact run_cfgs_restored. Qed.
+Print Assumptions C19_cfg_sequence_restores.
+
+Theorem C19_default_files_restore :
+  forall (fxs : fixes) (files : list str) (links : list (str * str)) (dir_ok : str -> bool)
+         (tops : list (str * dcontent)) (s : st),
+  is_abs (cwd s) = true -> defaults_enter_guard files links (fx_lf fxs) (fx_rp fxs) dir_ok (cwd s) tops = true ->
+  fst (run_defaults fxs files links dir_ok s tops) = s.
+Proof. exact run_defaults_restored. Qed.
+Print Assumptions C19_default_files_restore.
+
+(* with both repairs of this half landed and enterable directories: NO guard on the sequence *)
+Theorem C19_cfg_sequence_repaired :
+  forall (fxs : fixes) (files : list str) (links : list (str * str)) (dir_ok : str -> bool) (s : st)
+         (tops : list (str * list node)) (acc : list item),
+  fx_lf fxs = true -> fx_rp fxs = true -> (forall d, dir_ok d = true) -> is_abs (cwd s) = true ->
+  run_cfgs fxs files links dir_ok s tops acc = (s, spec_cfgs files links (cwd s) tops acc).
+Proof. exact run_cfgs_repaired. Qed.
+Print Assumptions C19_cfg_sequence_repaired.
+
+Theorem C19_default_files_repaired :
+  forall (fxs : fixes) (files : list str) (links : list (str * str)) (dir_ok : str -> bool) (s : st)
+         (tops : list (str * dcontent)),
+  fx_lf fxs = true -> fx_rp fxs = true -> (forall d, dir_ok d = true) -> is_abs (cwd s) = true ->
+  run_defaults fxs files links dir_ok s tops = (s, spec_defaults files links (cwd s) tops).
+Proof. exact run_defaults_repaired. Qed.
+Print Assumptions C19_default_files_repaired.
+
+(* what "override key by key" means: everything the later file says is in the result; an earlier value survives
+   exactly when the later file says nothing about its key *)
+Theorem C19_merge_later_wins : forall (old new : list item) (x : item), In x new -> In x (merge_items old new).
+Proof. exact merge_items_later. Qed.
+Print Assumptions C19_merge_later_wins.
+
+(* a NUL character in the spelling: PathError for every valid mode (before "-" and before any file-system question),
+   ValueError for an invalid one — as the reference semantics demands *)
+Theorem C19_nul_rejected : forall (fxs : fixes) (m given : str) (f : facts),
+  has_nul given = true -> path_init_fx fxs m given f = spec_init m given f.
+Proof.
+  intros fxs m given f H. unfold path_init_fx, spec_init. rewrite (check_mode_is_documented m).
+  rewrite H. unfold has_nul in H. rewrite H. reflexivity.
+Qed.
+Print Assumptions C19_nul_rejected.
+
 (* /B/run is the working directory; /B/a/top.yaml mentions ../b/mid.yaml, which mentions data.txt *)
 Definition s_of (l : list nat) : str := map N.of_nat l.
 Definition ex_files : list str :=
@@ -212,6 +287,21 @@ Example C19_nested_example :
   = ({| cwd := ex_cwd; cpd := None |},
      Ok [(1, s_of [100], s_of [47;66;47;98], s_of [47;66;47;98;47;100])]).   (* d resolved in /B/b *)
 Proof. vm_compute. reflexivity. Qed.
+
+(* the sequence guards are satisfiable: /B/a/t (-> ../b/m -> d) and then /B/b/m read as a config file of its own
+   whose p is d: the later file's value (id 1, same key) replaces the earlier one; a default file that does not exist
+   (zz) is skipped, a blank one too *)
+Example C19_sequence_example :
+  cfgs_guard ex_files [] false false (fun _ => true) ex_cwd [(ex_top, ex_body); (s_of [46;46;47;98;47;109], [NPath 2 (s_of [100])])] = true /\
+  run_cfgs no_fixes ex_files [] (fun _ => true) {| cwd := ex_cwd; cpd := None |}
+           [(ex_top, ex_body); (s_of [46;46;47;98;47;109], [NPath 2 (s_of [100])])] []
+  = ({| cwd := ex_cwd; cpd := None |}, Ok [(2, s_of [100], s_of [47;66;47;98], s_of [47;66;47;98;47;100])]) /\
+  defaults_guard ex_files [] false false (fun _ => true) ex_cwd
+     [(s_of [122;122], DBody [NBad]); (ex_top, DEmpty); (ex_top, DBody ex_body)] = true /\
+  run_defaults no_fixes ex_files [] (fun _ => true) {| cwd := ex_cwd; cpd := None |}
+     [(s_of [122;122], DBody [NBad]); (ex_top, DEmpty); (ex_top, DBody ex_body)]
+  = ({| cwd := ex_cwd; cpd := None |}, Ok [(1, s_of [100], s_of [47;66;47;98], s_of [47;66;47;98;47;100])]).
+Proof. vm_compute. auto. Qed.
 
 (* the guard is satisfiable with nested files, and trees without list files are always inside it *)
 Example C19_tree_guard_inhabited : tree_guard ex_files [] false false (fun _ => true) ex_cwd ex_top ex_body = true.
